@@ -210,6 +210,11 @@ impl DodecahedronProjection {
         origin_id: OriginId,
         reflected: bool,
     ) -> Result<SphericalTriangle, String> {
+        // An origin id outside the face table must not alias the slot of a reflected triangle
+        // (10 * 12 + i is also 120 + i): the answer would depend on what was cached before
+        if (origin_id as usize) >= get_origins().len() {
+            return Err("Invalid origin ID".to_string());
+        }
         let mut index = 10 * (origin_id as usize) + face_triangle_index; // 0-119
         if reflected {
             index += 120;
